@@ -407,6 +407,13 @@ def run_quad(pe, acc, case):
     slots = ['p%d' % i for i in range(npar)] + ['a', 'b']
     orients = [('a<b', (0.2, 1.1)), ('a>b', (1.3, 0.4))] + ([('a<0<b', (-0.7, 0.9)), ('wide', (0.05, 3.0))] if os.environ.get('VERIF_TIER') == 'thorough' else [])
     for orient, (av, bv) in orients:
+        # call history: an earlier call with plain numbers and scipy options (it returns scipy's tuple early) must leave nothing
+        # behind for the calls that follow
+        try:
+            pe.integrate.quad(lambda q, x: q[0] + q[1] * x, [1.1, 0.6], 0.1, 0.9, weight='cos', wvar=3.0)
+            pe.integrate.quad(lambda q, x: q[0] * x, [0.4], 0.0, 1.0, epsabs=1e-3, epsrel=1e-3, limit=7)
+        except Exception:
+            pass
         for k in range(0, len(slots) + 1):
             for obs_slots in itertools.combinations(slots, k):
                 for assign in (SLOT_ASSIGN if k > 0 else ['equal']):
